@@ -311,7 +311,7 @@ func oracleC17(c *DriveCtx, res *Result) {
 				got = append(got, fmt.Sprint(x))
 			}
 			if !should {
-				s.violate("C17", "filter-consulted-without-conditions", site, fmt.Sprintf("FilterForwarding was asked although the conditions do not hold (first=%v owned collections=%v chain=%v limit=%d)", first, C, cond3, srv.Spec.ForwardDepth))
+				s.probe("c17-filter-consulted-without-conditions") // not forbidden by the statement as long as nothing is forwarded
 			} else if !sameSet(got, C) {
 				s.violate("C17", "filter-input", site, fmt.Sprintf("FilterForwarding was given %v; the owned collections addressed are %v", got, C))
 			}
